@@ -206,10 +206,26 @@ class World:
 
         realm = self.realm
         specs = []
+        import re
+
+        from apischema.metadata import flatten, properties
+
         for f in td.fields:
             kw: Dict[str, Any] = {}
+            mds = []
             if f.alias is not None:
-                kw["metadata"] = ap_alias(f.alias)
+                mds.append(ap_alias(f.alias))
+            if f.flatten:
+                mds.append(flatten)
+            if f.pattern is not None:
+                mds.append(properties(pattern=re.compile(f.pattern)))
+            if f.additional:
+                mds.append(properties)
+            if mds:
+                md = mds[0]
+                for m in mds[1:]:
+                    md = md | m
+                kw["metadata"] = md
             if f.factory is not None:
                 kw["default_factory"] = M.make_default(f, realm)
             elif f.has_default:
@@ -310,6 +326,27 @@ DISCS_X = [
     Disc((TDA, TDB), "kind"),  # TypedDict alternatives (need the field)
     Disc((BIRD, OWL), "type"),  # one alternative with the field, one without
 ]
+# alternatives with aggregate fields (flattened / pattern properties / catch-all properties): the
+# discriminator property is neither theirs nor unexpected
+POS2 = Obj("dataclass", "Pos2", (Fld("x", INT), Fld("y", INT, has_default=True, default=0)))
+CIRC = Obj("dataclass", "Circ", (Fld("r", INT), Fld("pos", POS2, flatten=True)))
+PATT = Obj("dataclass", "Patt", (Fld("a", INT, has_default=True, default=0), Fld("pp", Mapp(STR, INT), factory="dict", pattern="^x")))
+BOTH = Obj("dataclass", "Both", (Fld("h", STR), Fld("inner", P.A2, flatten=True), Fld("pp", Mapp(STR, INT), factory="dict", pattern="^x")))
+DEEP = Obj("dataclass", "Deep", (Fld("d", INT), Fld("circ", CIRC, flatten=True)))
+# discriminator fields whose Literal type is wrapped (Annotated metadata)
+CARD = Obj("dataclass", "Card", (Fld("kind", Ann(Lit(("card", "credit_card")), cons(max_len=20))), Fld("number", STR)))
+XFER = Obj("dataclass", "Xfer", (Fld("kind", Ann(Ann(Lit(("transfer",)), cons(min_len=1)), cons(max_len=30)), has_default=True, default="transfer"), Fld("iban", STR, has_default=True, default="i")))
+CASH = Obj("dataclass", "Cash", (Fld("amount", INT, has_default=True, default=0),))
+WIRE = Obj("dataclass", "Wire", (Fld("kind", NewT("WireKind", Lit(("wire", "swift")))), Fld("bic", STR, has_default=True, default="b")))
+DISCS_X += [
+    Disc((CIRC, CAT), "type"),
+    Disc((CAT, PATT, CIRC), "type"),
+    Disc((BOTH, DEEP), "kind", mapping=(("b", "Both"),)),
+    Disc((P.E, P.F), "type"),
+    Disc((CARD, XFER, CASH), "kind"),
+    Disc((CASH, CARD), "kind", mapping=(("money", "Cash"),)),
+    Disc((WIRE, CASH), "kind"),
+]
 DISCX1 = X(DiscX("DxKeep", (CAT, DOG), "type", mapping=(("c", "Cat"),), override_implicit=False))
 DISCX2 = X(DiscX("DxKeep2", (CAT, DOG, BIRD), "type", mapping=(("bird", "Cat"),), override_implicit=False))
 
@@ -320,7 +357,12 @@ BASE1 = InhBase("Base1", "kind", (SUB_A, SUB_B, SUB_C))
 SUB_P = Obj("dataclass", "SubP", (Fld("name", STR),))
 SUB_Q = Obj("dataclass", "SubQ", (Fld("name", STR), Fld("q", Opt(INT), has_default=True, default=None)))
 BASE2 = InhBase("Base2", "node_type", (SUB_P, SUB_Q))
-INH = [X(BASE1), X(BASE2), X(InhUnion("Base1_AB", BASE1, (SUB_A, SUB_B))), X(InhUnion("Base1_CA", BASE1, (SUB_C, SUB_A))), X(InhUnion("Base2_QP", BASE2, (SUB_Q, SUB_P)))]
+SUB_F = Obj("dataclass", "SubF", (Fld("r", INT), Fld("pos", POS2, flatten=True)))
+SUB_G = Obj("dataclass", "SubG", (Fld("g", INT), Fld("pp", Mapp(STR, INT), factory="dict", pattern="^x")))
+SUB_H = Obj("dataclass", "SubH", (Fld("side", INT),))
+SUB_K = Obj("dataclass", "SubK", (Fld("type", Ann(Lit(("k1", "k2")), cons(max_len=5))), Fld("n", INT, has_default=True, default=0)))
+BASE3 = InhBase("Base3", "type", (SUB_F, SUB_G, SUB_H, SUB_K))
+INH = [X(BASE1), X(BASE2), X(InhUnion("Base1_AB", BASE1, (SUB_A, SUB_B))), X(InhUnion("Base1_CA", BASE1, (SUB_C, SUB_A))), X(InhUnion("Base2_QP", BASE2, (SUB_Q, SUB_P))), X(BASE3), X(InhUnion("Base3_FK", BASE3, (SUB_F, SUB_K)))]
 
 
 def alt_pool(tier: str) -> List[Any]:
@@ -566,7 +608,7 @@ def class_matches(td, v, world: World) -> bool:
 
 
 def build_objects(world: World):
-    for o in P.OBJECTS + [P.PQ_Q, P.A2, CAT, DOG, BIRD, FISH, LION, OWL, NEWT, TDA, TDB]:
+    for o in P.OBJECTS + [P.PQ_Q, P.A2, CAT, DOG, BIRD, FISH, LION, OWL, NEWT, TDA, TDB, POS2, CIRC, PATT, BOTH, DEEP, CARD, XFER, CASH, WIRE]:
         M.realize(o, world.realm)
     for x in list(ALL_EXTRAS.values()):
         world.realize(x)
